@@ -1571,8 +1571,12 @@ func (r *Runner) Exec(st *Stmt, cancelAt int64) *Outcome {
 					d = d[:1500] + "…"
 				}
 				rp["table_after"] = d
-				o.Law("failed_statement_changed_table", rp)
-				out.Failed = append(out.Failed, "failed_statement_changed_table")
+				law := "failed_statement_changed_table"
+				if cancelAt > 0 {
+					law = "cancelled_statement_changed_table"
+				}
+				o.Law(law, rp)
+				out.Failed = append(out.Failed, law)
 			}
 		}
 		if m := Marks(r.Pr); m != marksBefore {
@@ -1629,6 +1633,11 @@ func (r *Runner) Exec(st *Stmt, cancelAt int64) *Outcome {
 		o.Case("c05."+st.Op, strings.TrimRight(out.Line, " "))
 	}
 	return out
+}
+
+func (r *Runner) SetCPU(n int) {
+	r.CPU = n
+	r.Pr.SetCPU(n)
 }
 
 // TwinExec repeats a statement that succeeded on the control processor.
